@@ -1,8 +1,11 @@
 package props
 
 import (
+	"encoding/json"
 	"fmt"
+	"regexp"
 	"strings"
+	"sync/atomic"
 	"testing"
 
 	"github.com/AdguardTeam/urlfilter"
@@ -44,6 +47,17 @@ func c13SnapObj(o any) string {
 
 func checkC13(c c13Case, rec *Rec) *Violation {
 	const id = "C13"
+	// the regex rules with generated texts get texts that nothing in this process has used before
+	uniq, id1 := c13UniqID(c.Lists), ""
+	if uniq != "" {
+		id1 = fmt.Sprint(2_000_000_000 + c13FreshID.Add(1))
+		c = c13Rename(c, uniq, id1)
+	}
+	type asked struct {
+		q   Q
+		got string
+	}
+	var hist []asked
 	long, err := newEngSet(c.Lists)
 	if err != nil {
 		return viol(id, "C13:harness", "storage: %v", err)
@@ -152,6 +166,9 @@ func checkC13(c c13Case, rec *Rec) *Violation {
 				held = append(held, c13Held{o, c13SnapObj(o), si})
 			}
 			queries = append(queries, q)
+			if id1 != "" && !q.Host && strings.Contains(strings.ToLower(q.URL), "niq"+id1) {
+				hist = append(hist, asked{q, got})
+			}
 			lastClient = q.CName + "|" + q.CIP + "|" + fmt.Sprint(q.Tags) + "|" + q.DNSType
 		}
 	invariant:
@@ -162,11 +179,62 @@ func checkC13(c c13Case, rec *Rec) *Violation {
 			}
 		}
 	}
+	if len(hist) > 1 {
+		// the same questions in the opposite order, to fresh engines over the same lists with the generated
+		// expressions renamed apart: state that outlives an engine (keyed by rule text) cannot carry over,
+		// so every question must get the answer it got in the history above
+		id2 := fmt.Sprint(2_000_000_000 + c13FreshID.Add(1))
+		c2 := c13Rename(c, id1, id2)
+		for i := range c2.Lists {
+			c2.Lists[i].File = false
+		}
+		en2, err2 := newEngSet(c2.Lists)
+		if err2 != nil {
+			return viol(id, "C13:harness", "storage: %v", err2)
+		}
+		defer en2.cleanup()
+		matchAll := func(s string) string { s, _, _ = strings.Cut(s, " basicrule="); return s }
+		for i := len(hist) - 1; i >= 0; i-- {
+			q2 := hist[i].q
+			q2.URL = strings.ReplaceAll(q2.URL, id1, id2)
+			got2, _ := en2.answer(q2)
+			got2 = strings.ReplaceAll(got2, id2, id1)
+			if matchAll(got2) != matchAll(hist[i].got) {
+				return viol(id, "C13:history-dependent-answer:order-of-questions", "request %+v got\n %s\nin the history, but\n %s\nwhen the same questions were asked in the opposite order (fresh engines, generated expressions renamed apart)", hist[i].q, clipStr(matchAll(hist[i].got)), clipStr(matchAll(got2)))
+			}
+		}
+		rec.Label("renamed-apart-reverse-history")
+	}
 	if nontrivial {
 		rec.NonTrivial(fmt.Sprint(c.Lists)+fmt.Sprint(len(c.Steps))+fmt.Sprintf("%x", hash64(fmt.Sprint(c.Steps, queries))), map[string]any{"lists": c.Lists, "steps": len(c.Steps), "first_steps": firstN(c.Steps, 6)})
 	}
 	rec.LabelN("steps", len(c.Steps))
 	return nil
+}
+
+// c13FreshID numbers the generated regex texts of this process.
+var c13FreshID atomic.Int64
+
+var c13UniqRe = regexp.MustCompile(`niq(\d+)[a-z]\[0-9\]`)
+
+// c13UniqID is the generated id inside the /uniq<id>x[0-9]/ rules of the lists, if any.
+func c13UniqID(lists []ListSpec) string {
+	for _, l := range lists {
+		if m := c13UniqRe.FindStringSubmatch(l.Text); m != nil {
+			return m[1]
+		}
+	}
+	return ""
+}
+
+// c13Rename gives the generated expressions another id, in the lists and in the questions.
+func c13Rename(c c13Case, from, to string) c13Case {
+	var out c13Case
+	raw := regexp.MustCompile("(?i)(niq)"+from).ReplaceAllString(string(mustJSON(c)), "${1}"+to)
+	if err := json.Unmarshal([]byte(raw), &out); err != nil {
+		panic(err)
+	}
+	return out
 }
 
 func firstN[T any](xs []T, n int) []T {
@@ -180,8 +248,26 @@ func genC13(t *rapid.T) c13Case {
 	lists, models := genMixedLists(t, 3)
 	c := c13Case{Lists: lists}
 	n := rapid.IntRange(10, scale(60, 200)).Draw(t, "nsteps")
+	uniq := c13UniqID(lists)
 	for len(c.Steps) < n {
-		switch rapid.IntRange(0, 9).Draw(t, "stepkind") {
+		if uniq != "" && chance(t, "fresh-regex-query", 6) {
+			u := "http://x.com/" + pick(t, "uniq-case", []string{"uniq", "Uniq", "UNIQ"}) + uniq + pick(t, "uniq-letter", []string{"p", "p", "a", "b", "P"}) + "7"
+			q := Q{URL: u, Typ: pick(t, "uniq-type", []string{"image", "script", "script", "image", "other"})}
+			c.Steps = append(c.Steps, c13Step{Kind: "query", Q: &q})
+			continue
+		}
+		switch rapid.IntRange(0, 10).Draw(t, "stepkind") {
+		case 10:
+			// the same DNS name in several spellings, one right after the other
+			h := pick(t, "cvh", []string{"example.org", "a.com", "sub.example.org", "google.com", "shared.example", hostColliders[0][0]})
+			sp := []string{h, strings.ToUpper(h), strings.ToUpper(h[:1]) + h[1:], h[:len(h)-1] + strings.ToUpper(h[len(h)-1:])}
+			for i := rapid.IntRange(2, 4).Draw(t, "nspell"); i > 0; i-- {
+				q := Q{Host: true, Hostname: pick(t, "spelling", sp)}
+				if chance(t, "cv-client", 3) {
+					q.CName, q.Tags = "Kids", []string{"phone"}
+				}
+				c.Steps = append(c.Steps, c13Step{Kind: "query", Q: &q})
+			}
 		case 0, 1:
 			c.Steps = append(c.Steps, c13Step{Kind: "repeat", Ref: rapid.IntRange(0, 1000).Draw(t, "ref")})
 		case 2:
